@@ -52,6 +52,22 @@ P = {
    "preemption-bounded DFS over interleavings of subscribe / publish / disconnect threads on the real Pub/Sub code with a linearizability oracle over (delivered sets, PUBLISH counts); separate -race pass",
    "9 scenarios (two subscribers, two channels, two publishers, connection failing, context cancelled while another subscriber registers, payloads with CR LF / empty) are explored for every schedule with <= 2 (3) preemptions; from the bytes each recording connection received, the oracle requires exactly-once intact delivery, per-publisher order, and an order of subscribe / asynchronous unsubscribe / publish operations consistent with real time that explains every delivery set and PUBLISH reply; deadlock, panic and subscriber bookkeeping at quiescence checked.",
    "In-memory connections; the shape of the SUBSCRIBE acknowledgement is C03's business.", "DESIGN.md §3 C19"),
+ "C07": (True, "clustermc", "exploration",
+   "iterative deviation bounding over the default schedule of an in-process 3-node cluster assembled from the real components (HandleCluster, proposal encoding, RawNode configured from startRaft's literal, the extracted Ready body on a real WAL, the real apply loop), linearizability and replica-agreement oracles; separate -race pass with concurrent clients on one node",
+   "For 5 workloads (2-3 clients on leader and followers, 1-2 commands each, incl. arguments with spaces and empty strings) and every merge order of the client programs, the default schedule and every placement of <= 1 (thorough 2) deviations - drop or out-of-order delivery of a pooled Raft message, campaign on a non-leader, crash of a node with restart at the next quiescence, submitting the next command before quiescence - at every decision point are executed; the client history must be linearizable (unacknowledged commands at most once), replicas with equal applied index identical, the most advanced replica the end state of a linearization, no node goroutine may panic. The same node code runs free under -race with three concurrent clients.",
+   "rafthttp transport, the raft.Node channel wrapper, OS processes and TCP are replaced by the simulator; membership changes and message duplication are not exercised (duplication is C15's); claimed for the composed in-process system.", "DESIGN.md §3 C07"),
+ "C08": (True, "clustermc", "fault_enumeration",
+   "exhaustive enumeration of crash opportunities (event boundaries and fsync callbacks inside the real Ready handling) x node subsets x restart orders of a write history on the in-process cluster with lowered snapshot thresholds",
+   "A history of acknowledged writes (strings, counter, list, set, hash, delete) runs on 1- and 3-node in-process clusters with (snapshot threshold, catch-up) in {(inf,inf),(2,1),(3,2),(3,3)}; at every event boundary of the default schedule and every fsync/fdatasync callback inside wal.Save / SaveSnap / saveSnap, every non-empty node subset is killed and restarted from its directories in every order; after stabilisation every key is read on every node and must reflect the acknowledged prefix; panics while taking / saving / loading snapshots are violations.",
+   "Crash = process crash (written data survives; sector loss is C16); two open findings: snapshotting panics on list values, and no state is ever restored from a snapshot.", "DESIGN.md §3 C08"),
+ "C14": (True, "clustermc", "model_checking",
+   "differential enumeration: the same command bytes through a standalone connection handler and through the complete cluster execution path with consensus short-circuited, replies and full keyspace dumps compared",
+   "For ~50 command templates covering every value type x every argument position x 10 hostile byte strings (spaces, empty, CR LF, non-UTF-8, quotes, backslash, upper case, multi-byte), other letter cases of the command name, the empty command, and every writer x reader pair with hostile arguments, from a populated keyspace: HandleCluster -> proposal -> JSON entry -> publishEntries -> apply loop must give the same reply and the same keyspace as Manager.Handle.",
+   "Consensus is short-circuited (one entry per proposal); Raft carries Entry.Data opaquely (C15/C16).", "DESIGN.md §3 C14"),
+ "C15": (True, "raftmc", "model_checking",
+   "explicit-state search whose transition function is the real raft.RawNode: all interleavings in a small box, deviation-bounded deep search in larger boxes, invariants checked in every state",
+   "3 (5) real RawNodes with MemoryStorage under deliver / drop / duplicate / reorder / tick / propose / campaign / crash / restart / compact / partition / membership-change events: Box A enumerates every interleaving up to depth 10/12 under tiny budgets, Box B explores deep runs with <= 1/2 deviations from FIFO delivery; ElectionSafety, LogMatching, StateMachineSafety, LeaderCompleteness, commit/applied ordering, persisted term/vote/commit monotonicity and library panics are checked on every transition; 1 in 64 states is re-executed without memoisation.",
+   "Budgets (terms, proposals, crashes) bound the boxes; member histories are memoised per worker (guarded by straight-line re-validation); see DESIGN §3 C15 deviations.", "DESIGN.md §3 C15"),
  "C18": seq("Every program up to the completed depth over XADD (explicit, partial and auto ids; NOMKSTREAM; MAXLEN/MINID with = and ~) and XRANGE (every bound shape) plus millisecond clock events, compared with an ordered-slice model; id order and id<->entry bijection are checked in every state.", "DESIGN.md §3 C18"),
 }
 NOT_YET = "check not built yet (work in progress in this session; see DESIGN.md for the planned engine)"
